@@ -1,5 +1,6 @@
 import AasVerif.Lemmas.PyEmit
 import AasVerif.Lemmas.PyParen
+import AasVerif.Lemmas.PyParseSem
 import AasVerif.Lemmas.PyRules
 import AasVerif.Lemmas.SdkVerify
 import AasVerif.Lemmas.SdkExact
@@ -85,6 +86,89 @@ example :
         [.not (.paren (.compare (.attr .that .prop [97]) (.cmp .lt) (.int 3))), .attr .that .prop [98]]) := by
   intro self e
   exact ⟨by decide, by decide, rfl⟩
+
+/-! ## (b) transpiler: the emitted text read back by Python's grammar
+
+`print x` is the token sequence of the emitted text (`Model/PyParse.lean`; compared token by
+token with CPython's `tokenize` of the real transpiler output on every run), `parse` reads a
+token sequence along Python's expression grammar (`disjunction → conjunction → inversion →
+comparison → sum → factor → primary → atom`, comparison chains and `not in` recognised as such
+and reported `outside`; compared with CPython's `ast.parse` on every run), `strip x` is the
+tree without `paren` nodes.
+
+Full statement (false): `transpile cfg vs e = .ok x → parse (print x) = .ok (strip x) []`. -/
+
+/-- Negation witness: the text emitted for `(-5)[0]` is `-5[0]`, which Python's grammar reads as
+`-(5[0])`. -/
+theorem emit_roundtrip_full_fails :
+    ¬ (∀ (cfg : Cfg) (vs : List Text) (e : Expr) (x : PyExpr),
+        transpile cfg vs e = .ok x → parse (print x) = .ok (strip x) []) := by
+  intro h
+  have h1 := h cfg0 [] (.index (.const (.int (-5))) (.const (.int 0)))
+    (.subscript (.neg (.int 5)) (.int 0)) rfl
+  have h2 : parse (print (.subscript (.neg (.int 5)) (.int 0))) =
+      .ok (.neg (.subscript (.int 5) (.int 0))) [] := rfl
+  rw [h2] at h1
+  simp [strip] at h1
+
+/-- **reader_roundtrip.** Whenever every omitted parenthesis is justified by the precedence
+table (`parenOK`), Python's grammar reads the printed token sequence as exactly the expression
+printed — for every `PyExpr`, transpiler output or not. -/
+theorem reader_roundtrip (x : PyExpr) (h : parenOK x = true) : parse (print x) = .ok (strip x) [] :=
+  parse_print x h
+
+/-- **emit_roundtrip (partial).** The text the transpiler emits is read by Python's grammar as
+the tree the transpiler meant (same hypothesis as `emit_parens_justified_partial`: member
+instances are primaries, no index access on a constant). -/
+theorem emit_roundtrip_partial (cfg : Cfg) (vs : List Text) (e : Expr) (x : PyExpr)
+    (hs : simple e = true) (h : transpile cfg vs e = .ok x) : parse (print x) = .ok (strip x) [] :=
+  parse_print x (good cfg e vs x hs h).ok
+
+/-- … and the whole `if not <expr>:` condition. -/
+theorem emit_invariant_roundtrip_partial (cfg : Cfg) (e : Expr) (x : PyExpr)
+    (hs : simple e = true) (h : transpileInvariant cfg e = .ok x) : parse (print x) = .ok (strip x) [] :=
+  parse_print x (emit_invariant_parens_justified_partial cfg e x hs h)
+
+/-- **emit_text_preserves (partial).** Semantic form: the meaning Python gives to the emitted
+*text* (read with the grammar, then evaluated) is the meaning of the source expression, in every
+environment — value or exception. -/
+theorem emit_text_preserves_partial (cfg : Cfg) (vs : List Text) (e : Expr) (x : PyExpr)
+    (hs : simple e = true) (hfloat : noNan e = true) (h : transpile cfg vs e = .ok x) (ρ : Env) :
+    evalToks ρ (print x) = some (Expr.eval ρ e) := by
+  rw [evalToks_print x (good cfg e vs x hs h).ok ρ, preserves cfg e vs x hfloat h ρ]
+
+/-- … and of the emitted `if` condition. -/
+theorem emit_invariant_text_preserves_partial (cfg : Cfg) (e : Expr) (x : PyExpr)
+    (hs : simple e = true) (hfloat : noNan e = true) (h : transpileInvariant cfg e = .ok x) (ρ : Env) :
+    evalToks ρ (print x) =
+      some (match Expr.eval ρ e with
+       | .val v => .val (.bool (!v.truthy ρ.fops))
+       | err => err) := by
+  rw [evalToks_print x (emit_invariant_parens_justified_partial cfg e x hs h) ρ,
+    emit_invariant_preserves cfg e x hfloat h ρ]
+
+/-- The reader does not mistake a comparison chain for a nested comparison: `a < b < c` is
+reported as a chain, the emitted `(a < b) < c` is read back as the nested comparison, and
+`not a == b` is `not (a == b)`. -/
+theorem reader_chain_and_not :
+    let a := PyExpr.var [97]; let b := PyExpr.var [98]; let c := PyExpr.var [99]
+    parse [.var [97], .cmp .lt, .var [98], .cmp .lt, .var [99]] = .outside ∧
+    parse (print (.compare (.paren (.compare a (.cmp .lt) b)) (.cmp .lt) c)) =
+      .ok (.compare (.compare a (.cmp .lt) b) (.cmp .lt) c) [] ∧
+    parse [.kwNot, .var [97], .cmp .eq, .var [98]] = .ok (.not (.compare a (.cmp .eq) b)) [] ∧
+    parse [.var [97], .kwNot, .kwIn, .var [98]] = .outside :=
+  ⟨rfl, rfl, rfl, rfl⟩
+
+/-- Non-vacuity: the example invariant above is transpiled to text that is read back. -/
+example :
+    let self := Expr.name selfName
+    let e : Expr := .impl (.cmp (.member self [97]) .lt (.const (.int 3))) (.member self [98])
+    ∃ x, transpile cfg0 [] e = .ok x ∧ simple e = true ∧
+      print x = [.kwNot, .lpar, .that, .dot, .attrName .prop [97], .cmp .lt, .int 3, .rpar, .kwOr,
+                 .that, .dot, .attrName .prop [98]] ∧
+      parse (print x) = .ok (.boolop false
+        [.not (.compare (.attr .that .prop [97]) (.cmp .lt) (.int 3)), .attr .that .prop [98]]) [] :=
+  ⟨_, rfl, by decide, rfl, rfl⟩
 
 /-! ## (a) parse rules -/
 
